@@ -3,9 +3,10 @@
    Every theorem holds for EVERY environment oracle [env] and EVERY canon oracle [canon]
    (canon M s = M.extract_format(source=s).as_str(), modelled elsewhere).
    Definitions used in the statements: shape_ok, shape_block, entries, tmpl_flag, wf_master
-   (Proofs/FetchShape.v, FetchBasics.v), strip_objs (Proofs/FetchDisabled.v). *)
+   (Proofs/FetchShape.v, FetchBasics.v), strip_objs (Proofs/FetchDisabled.v), srcs_ordered, parsed
+   (Proofs/FetchDisabledVars.v). *)
 From Coq Require Import List Ascii String Bool Arith ZArith.
-From Phil Require Import Base Tree Vars Choice Fetch FetchBasics FetchShape FetchDisabled FetchTrack FetchExamples.
+From Phil Require Import Base Tree Vars Choice Parser Fetch FetchBasics FetchShape FetchDisabled FetchDisabledVars FetchTrack FetchExamples.
 Import ListNotations.
 
 (* Whatever the sources, a result that is returned has the master's shape: one block per entry
@@ -40,15 +41,58 @@ Theorem C04_nothing_undeclared : forall env canon m srcs r o,
 Proof. exact result_objects_from_active_master. Qed.
 Print Assumptions C04_nothing_undeclared.
 
-(* disabled source objects are ignored entirely (any diff flag).  Proved for sources without "$":
-   there the lexical context plays no part.  With "$" the clause additionally rests on variable
-   lookup skipping disabled objects (Vars.scan, since the repair of F10); that case is not proved
-   here - it is compared on every run (stream fetch_shape, clause srcdis, incl. "$" sources). *)
+(* disabled source objects are ignored entirely (any diff flag).  For sources without "$" the lexical
+   context plays no part and nothing is assumed of the sources ... *)
 Theorem C04_disabled_sources_ignored : forall env canon diff m srcs,
   srcs_have_dollar srcs = false ->
   fetch env canon diff m srcs = fetch env canon diff m (map strip_objs srcs).
 Proof. exact disabled_sources_ignored. Qed.
 Print Assumptions C04_disabled_sources_ignored.
+
+(* ... and with "$" the clause rests on variable lookup skipping disabled objects (Vars.scan /
+   live_cand, since the repair of F10): a lookup in the stripped chain finds the stripped object
+   (lexical_get_strip), so a definition resolves to the same words (resolve_def_strip).  One thing is
+   needed of the sources: a disabled object still ENDS the first loop of lexical_get (the stop_id
+   test comes before the is_disabled test), so every object must carry a primary id and sibling
+   ids must never decrease (srcs_ordered) - then whatever follows the disabled object ends the loop
+   as well.  Every parsed document is like that (parse_list_ok, from ParserShape): *)
+Theorem C04_disabled_sources_ignored_any : forall env canon diff m srcs,
+  Forall parsed srcs ->
+  fetch env canon diff m srcs = fetch env canon diff m (map strip_objs srcs).
+Proof. exact fetch_strip_parsed. Qed.
+Print Assumptions C04_disabled_sources_ignored_any.
+
+(* the same for any source trees with ids in document order, parsed or not *)
+Theorem C04_disabled_sources_ignored_ordered : forall env canon diff m srcs,
+  srcs_ordered srcs = true ->
+  fetch env canon diff m srcs = fetch env canon diff m (map strip_objs srcs).
+Proof. exact fetch_strip. Qed.
+Print Assumptions C04_disabled_sources_ignored_ordered.
+
+(* parsed documents are ordered *)
+Theorem C04_parsed_sources_ordered : forall srcs, Forall parsed srcs -> srcs_ordered srcs = true.
+Proof. exact parsed_ordered. Qed.
+Print Assumptions C04_parsed_sources_ordered.
+
+(* the two facts about variable lookup the clause rests on: lookup and resolution commute with the
+   removal of the disabled objects (smap strips the object found and its chain) *)
+Theorem C04_lookup_skips_disabled : forall fuel stop chain path up, stop <> 0 -> chain_ok chain ->
+  lexical_get fuel stop (map strip_objs chain) path up = smap (lexical_get fuel stop chain path up).
+Proof. exact lexical_get_strip. Qed.
+Print Assumptions C04_lookup_skips_disabled.
+Theorem C04_resolution_skips_disabled : forall env fuel diff chain d, oid d <> 0 -> chain_ok chain ->
+  resolve_def env fuel diff (map strip_objs chain) (strip_obj d) = resolve_def env fuel diff chain d.
+Proof. exact resolve_def_strip. Qed.
+Print Assumptions C04_resolution_skips_disabled.
+
+(* without the order the clause fails with "$" (a hand-built tree, not a parsed one: a = 1 (id 1);
+   !x = 0 (id 5); a = 2 (id 2); b = $a (id 3) - the disabled x hides the second a from b) *)
+Theorem C04_disabled_sources_ignored_unordered_refuted :
+  srcs_ordered [unord_source] = false /\
+  fetch ex_env ex_canon false unord_master [unord_source]
+  <> fetch ex_env ex_canon false unord_master (map strip_objs [unord_source]).
+Proof. exact strip_needs_order. Qed.
+Print Assumptions C04_disabled_sources_ignored_unordered_refuted.
 
 (* more generally the result depends on "$"-free sources only through their view (the active
    objects, recursively, in order): not on how they are split into source documents, not on
@@ -59,6 +103,15 @@ Theorem C04_sources_view : forall env canon diff m srcs srcs',
   fetch env canon diff m srcs = fetch env canon diff m srcs'.
 Proof. exact fetch_view. Qed.
 Print Assumptions C04_sources_view.
+
+(* with "$" the split into documents matters (a lexical chain never leaves its document): the
+   result depends on ordered sources only through their stripped documents *)
+Theorem C04_sources_view_any : forall env canon diff m srcs srcs',
+  srcs_ordered srcs = true -> srcs_ordered srcs' = true ->
+  map strip_objs srcs = map strip_objs srcs' ->
+  fetch env canon diff m srcs = fetch env canon diff m srcs'.
+Proof. exact fetch_view_vars. Qed.
+Print Assumptions C04_sources_view_any.
 
 (* a disabled master object never appears in a result: the result has the shape of the master
    without it (and by C06 the source definitions naming it are reported as unused) *)
@@ -84,3 +137,12 @@ Example C04_disabled_variable_source_ignored :
   fetch ex_env ex_canon false f10_master [f10_source] = UErr k_undefined (s_ "y") 2 /\
   fetch ex_env ex_canon false f10_master (map strip_objs [f10_source]) = UErr k_undefined (s_ "y") 2.
 Proof. exact (conj f10_with_disabled f10_without_disabled). Qed.
+(* a parsed source with "$", a disabled definition of the variable in two scopes and a disabled
+   scope: with or without them b = $a reads the active a = 1 *)
+Example C04_disabled_sources_ignored_any_satisfiable :
+  parsed pv_source /\ srcs_have_dollar [pv_source] = true /\
+  fetch ex_env ex_canon false pv_master [pv_source]
+  = Ok [ Scp (dh "t" false 1 1) [Def (dh "b" false 2 1) [mkword (s_ "1") QN 1] []] [] ] /\
+  fetch ex_env ex_canon false pv_master (map strip_objs [pv_source])
+  = Ok [ Scp (dh "t" false 1 1) [Def (dh "b" false 2 1) [mkword (s_ "1") QN 1] []] [] ].
+Proof. exact (conj pv_parsed pv_run). Qed.
